@@ -479,7 +479,15 @@ class MarkdownNormalizer(Renderer):
         self._list_depth -= 1
         self._current_list_tight = old_tight
         self._prefix = self._second_prefix
-        return "".join(result)
+        rendered = "".join(result)
+        # A loose list nested in an item of a tight list may end with a heading: the blank line
+        # after it would stand between two blocks of the outer item and make that list loose.
+        heading_blank = "\n" + self._second_prefix.rstrip() + "\n"
+        if self._list_depth > 0 and old_tight and not is_tight and rendered.endswith(heading_blank):
+            rendered = rendered[: -len(heading_blank)] + "\n"
+            self._skip_next_blank_line = False
+            self._suppress_item_break = False
+        return rendered
 
     def render_list_item(self, element: block.ListItem) -> str:
         result = ""
